@@ -171,6 +171,11 @@ def histories(ctx, n):
     hs = []
     for f in sorted(glob.glob(os.path.join(core.VERIF, "corpus", "C08", "*.json")) + glob.glob(os.path.join(core.VERIF, "corpus", "C09", "*.json"))):
         hs.append(json.load(open(f))["ops"])
+    hs += dkggen.directed_histories(dkggen.SCH[ctx["seed"] % 5])
+    if ctx["tier"] != "quick" or ctx.get("deep"):
+        for sc in dkggen.SCH:
+            if sc != dkggen.SCH[ctx["seed"] % 5]:
+                hs += dkggen.directed_histories(sc)
     for i in range(n):
         hs.append(dkggen.gen_history(rng.fork(f"h{i}"), dkggen.SCH[i % 5], deep=(i % 3 == 0))[0])
     return hs
@@ -204,6 +209,7 @@ def explore(ctx, res, oracle=oracle_history, prop="C08"):
     runs = run_histories(ctx, res, histories(ctx, n), prop)
     total = validated = 0
     classes, nontriv, samples = {}, set(), []
+    diverged = None
     for ops, mops, impl, model in runs:
         total += len(ops)
         now = int(mops[0].split()[1]) if mops and mops[0].startswith("now") else 0
@@ -225,15 +231,18 @@ def explore(ctx, res, oracle=oracle_history, prop="C08"):
             continue
         if model is not None:
             if model != impl:
-                j = core.first_diff(impl, model)
-                res.add_violation({"engine": "dkgsm", "kind": "model-impl-diverge", "ops": ops[:j + 1], "observed": impl[j:j + 1],
-                                   "expected": model[j:j + 1],
-                                   "note": f"correspondence 'dkgsm' no longer checks; the {prop} oracle accepts the implementation's answers on this history"},
-                                  found=False)
-                break
-            validated += 1
+                # keep going: another history may show the property itself failing on the implementation
+                if diverged is None:
+                    j = core.first_diff(impl, model)
+                    diverged = {"engine": "dkgsm", "kind": "model-impl-diverge", "ops": ops[:j + 1], "observed": impl[j:j + 1],
+                                "expected": model[j:j + 1],
+                                "note": f"correspondence 'dkgsm' no longer checks; the {prop} oracle accepts the implementation's answers on every history explored"}
+            else:
+                validated += 1
         if len(samples) < 3:
             samples.append({"ops": [o for o in ops if not o.startswith("mkpart")][:8], "impl": impl[-1][:200]})
+    if diverged is not None and not res.violations:
+        res.add_violation(diverged, found=False)
     res.cov.update(evaluations=total, distinct_nontrivial=len(nontriv), traces_validated_against_impl=validated, samples=samples)
     res.cov["rule"] = ("histories of 15-80 steps over 1-4 epochs seen from one real dkg.Process (leader, member, leaver or joiner), 5 schemes: valid protocol flows "
                        "(propose, join/accept/reject, execute, complete/fail/abort, retry) with 30-45% adversarial noise (commands at the wrong moment, 26 single-field "
